@@ -22,6 +22,7 @@ sensitivity: s/Data::Bool(r\[6\] != 0)/Data::Bool(r[6] == 0)/                   
 sensitivity: s/0x24 => ...CellErrorType::Num/0x24 => ...CellErrorType::NA/             error code map         KILLED
 sensitivity: s/v\[4\] \&= 0xFC;//                                                    flag bits leak into the double KILLED
 sensitivity: s/\[0x01, _, b, ../[0x01, b, _, ../ in parse_formula_value                 cached bool byte       KILLED
+sensitivity: seeded C02-2 (parse_sst drops zero-length strings, later isst shift)                   KILLED (replay + trace: SST = "", s0, "", s1, "")
 """
 import json
 
@@ -66,7 +67,7 @@ def run(ctx):
     r = ctx.tlc("biff", "MC_Rk", "MC_Rk.cfg", workers=2, timeout=300)
     if "STEP" in r["tags"]:
         ctx.replay("rk", r["tags"]["STEP"])
-    s = ctx.tlc("biff", "MC_Rk", "MC_Rk_sim.cfg", workers=4, simulate=ctx.pick(400, 20000), depth=250,
+    s = ctx.tlc("biff", "MC_Rk", "MC_Rk_sim.cfg", workers=4, simulate=ctx.pick(400, 5000), depth=250,
                 timeout=ctx.pick(120, 900), name="MC_Rk_sim")
     if "STEP" in s["tags"]:
         ctx.replay("rk", s["tags"]["STEP"])
